@@ -938,8 +938,6 @@ class DBusObjectHandler :
         @returns: A Deferred to the L{RemoteDBusObject} instance
         """
 
-        weak_id = (busName, objectPath, interfaces)
-
         need_introspection = False
         required_interfaces = set()
 
@@ -962,9 +960,9 @@ class DBusObjectHandler :
                         need_introspection = True
 
             if not need_introspection:
-                return defer.succeed(
-                    RemoteDBusObject(self, busName, objectPath, ifl)
-                )
+                prox = RemoteDBusObject(self, busName, objectPath, ifl)
+                self._weakProxies[id(prox)] = prox
+                return defer.succeed(prox)
 
         d = self.conn.introspectRemoteObject(
             busName,
@@ -983,7 +981,7 @@ class DBusObjectHandler :
 
             prox = RemoteDBusObject(self, busName, objectPath, ifaces)
 
-            self._weakProxies[weak_id] = prox
+            self._weakProxies[id(prox)] = prox
 
             return prox
 
